@@ -13,8 +13,10 @@ Every box is a stage model with its own property, theorems and driver kind (`tok
 
 * `FollowOp`         what happens around the followed file: the writer appends, the reader polls (one round of
                      `read_until`'s loop, with a possibly short read), the user interrupts (the `running` flag is cleared)
-* `deliveredBy`      the items `FollowFileIterator::next` has returned after the operations — `Reader.run` over the
-                     reader's share of the schedule, `BufReader::new` = capacity 8192, start offset by `--head`
+* `deliveredBy`      the items `FollowFileIterator::next` has returned after the operations — `driveReader`: the steps
+                     of `Model/Reader.lean` over the reader's share of the schedule (`BufReader::new` = capacity 8192,
+                     start offset by `--head`), ended at the first retry point that finds the flag cleared
+                     (`FollowFileIterator::with_running`, /repo caa9e23: D70)
 * `interruptPoint`   how many lines had been delivered when the flag was cleared: the loop tests the flag when the
                      iterator hands it the next line, so that line and all later ones are not executed
 * `lineText`         `String::from_utf8_lossy` (the identity on valid UTF-8; otherwise an external fact, `Facts.lossy`)
@@ -46,9 +48,26 @@ def readerOps : List FollowOp → List Reader.Op
 /-- `BufReader::new(file)`: `DEFAULT_BUF_SIZE` -/
 def followCap : Nat := 8192
 
+/-- `FollowFileIterator::with_running` under a schedule (/repo caa9e23, the repair of D70): the writer's appends and the
+reader's polls act on the reader state of `Model/Reader.lean`; an interrupt clears the flag; and a poll that ends at the
+RETRY POINT (end of file without a complete line: `retries` goes up) with the flag cleared makes `next()` return `None` —
+the iteration is over, whatever happens to the file afterwards. Lines that are complete are still handed out first
+(a poll that completes a line is no retry point). Result: the reader state, and whether `next()` has returned `None`. -/
+def driveReader : Reader.Follow → Bool → List FollowOp → Reader.Follow × Bool
+  | s, _, [] => (s, false)
+  | s, i, .append bs :: rest => driveReader (Reader.step s (.append bs)) i rest
+  | s, _, .interrupt :: rest => driveReader s true rest
+  | s, i, .poll k :: rest =>
+    if i && decide (s.retries < (Reader.step s (.poll k)).retries) then (Reader.step s (.poll k), true)
+    else driveReader (Reader.step s (.poll k)) i rest
+
 /-- the items `FollowFileIterator::next` has returned when the operations have happened (bytes of each line) -/
 def deliveredBy (head : Bool) (initial : List Nat) (ops : List FollowOp) : List (List Nat) :=
-  (Reader.run (Reader.Follow.init initial head followCap) (readerOps ops)).delivered
+  (driveReader (Reader.Follow.init initial head followCap) false ops).1.delivered
+
+/-- `next()` has returned `None`: the flag was found cleared while the iterator waited for a line to be completed -/
+def iteratorEnded (head : Bool) (initial : List Nat) (ops : List FollowOp) : Bool :=
+  (driveReader (Reader.Follow.init initial head followCap) false ops).2
 
 /-- the operations before the first interrupt (`none`: the schedule has no interrupt) -/
 def beforeInterrupt : List FollowOp → Option (List FollowOp)
@@ -60,6 +79,14 @@ def beforeInterrupt : List FollowOp → Option (List FollowOp)
 handed the next line -/
 def interruptPoint (head : Bool) (initial : List Nat) (ops : List FollowOp) : Option Nat :=
   (beforeInterrupt ops).map (fun pre => (deliveredBy head initial pre).length)
+
+/-- `FollowFileExecutor::execute` has returned because of the interrupt by the end of the schedule: the iterator ended
+(`iteratorEnded`), or it handed over a line after the flag was cleared and the loop left at its flag test -/
+def interruptedRunReturned (head : Bool) (initial : List Nat) (ops : List FollowOp) : Bool :=
+  iteratorEnded head initial ops ||
+    (match interruptPoint head initial ops with
+     | some k => decide (k < (deliveredBy head initial ops).length)
+     | none => false)
 
 /-- `String::from_utf8_lossy(line)`: the line itself when it is valid UTF-8; else what the library makes of it -/
 def lineText (F : Facts) (bs : List Nat) : Option (List Nat) :=
@@ -82,6 +109,11 @@ def followNoTable (stmt : Stmt) (fromTable : String) (delivered : Nat) (stopAt :
   else if delivered = 0 || stopAt == some 0 then {}
   else { out := { totalLines := 1, error := some .tableNotFound } }
 
+/-- the lines the loop is handed with the flag still set: only these are ever executed (and only they need facts) -/
+def handedLines (delivered : List (List Nat)) : Option Nat → List (List Nat)
+  | some k => delivered.take k
+  | none => delivered
+
 /-- how `FollowFileExecutor::execute` ends -/
 inductive FollowRun where
   | joinNotSupported                 -- `Err(ExecutionError::JoinNotSupported)`, nothing read, nothing written
@@ -98,7 +130,7 @@ def followStatement (F : Facts) (tables : List Table) (stmt : Stmt) (fromTable :
     match getTable tables fromTable with
     | none => some (.ran (followNoTable stmt fromTable delivered.length stopAt))
     | some t => do
-      let ls ← delivered.mapM (mkFollowLine F t.defn)
+      let ls ← (handedLines delivered stopAt).mapM (mkFollowLine F t.defn)
       pure (.ran (runFollowAllT F.eval { stmt := stmt, table := t.info, join := none } stopAt ls))
 
 /-! ### the terminal -/
